@@ -65,6 +65,13 @@ Theorem C07_remove_sequential_jumps_preserves_partial : forall ops,
 Proof. exact remove_sequential_jumps_preserves_partial. Qed.
 Print Assumptions C07_remove_sequential_jumps_preserves_partial.
 
+(* the per-run boolean (liveness of the new program re-computed, accepted only as a post-fixpoint)
+   is sound for that condition *)
+Theorem C07_seqj_side_ok_sound : forall ops, seqj_side_ok ops = true ->
+  lock_equiv ops (remove_sequential_jumps ops).
+Proof. exact seqj_side_ok_sound. Qed.
+Print Assumptions C07_seqj_side_ok_sound.
+
 Definition sj_ops : list op :=
   [ mkOp [] [1000] [R_OF] false (KOther 40 []);       (* sets r1000 and $of *)
     mkOp [] [] [] true (KJump 0);
